@@ -13,6 +13,7 @@ from vf.modelgen import F32, F64, Gen, Val, _free_names, _value_info, make_array
 from vf.runner import Collector
 
 ID = "C10"
+EARLY_ATTRIBUTION = True  # region predicates are cheap scans of the stored case
 LEVEL = "exploration"
 RULE = ("Hypothesis-generated executable models at source opset s in 18..25 (typed construction by concrete execution, vf.modelgen.Gen) "
         "holding 1-2 planted adapter-op instances - DFT (rank 3/4, axis attribute|input present/absent, onesided/inverse, dft_length), "
